@@ -244,3 +244,25 @@ func TestF12(t *testing.T) {
 		}
 	})
 }
+
+// F13: the "did you mean" suggestions for a missing array type are built with
+// reflect.ArrayOf, which panics when the suggested array cannot exist.
+func TestF13(t *testing.T) {
+	c := dig.New()
+	noPanic(t, func() {
+		if c.Invoke(func([1 << 62]struct{}) {}) == nil {
+			t.Fatal("Invoke of a missing type succeeded")
+		}
+	})
+	noPanic(t, func() {
+		if c.Invoke(func([1 << 20]*[1 << 45]byte) {}) == nil {
+			t.Fatal("Invoke of a missing type succeeded")
+		}
+	})
+	noPanic(t, func() {
+		c.Provide(func([1 << 62]struct{}) *A { return &A{1} })
+		if c.Invoke(func(*A) {}) == nil {
+			t.Fatal("Invoke of a missing type succeeded")
+		}
+	})
+}
